@@ -38,7 +38,7 @@ def num_equal(a, b, ty):
 class Prop(BaseProp):
     replay_whole = True
     coq_targets = ['ND/Proofs/C07_proofs.vo', 'ND/Proofs/C07_inst.vo']
-    n_quick, n_thorough = 700, 12000
+    n_quick, n_thorough = 1100, 12000
 
     def vec_types(self):
         return [t for t in genvals.type_list(self.tier) if t.struct in ('DualVec', 'Dual2Vec', 'HyperDualVec')]
@@ -65,10 +65,25 @@ class Prop(BaseProp):
                 for pa, pb in ((True, False), (False, True)):
                     a = [genvals.gen_value(rng, ty, genvals.leaf_rand, re_leaf=lambda r: r.uniform(0.3, 3), presence=pp) for pp in (pa, pb)]
                     twins(ty, op, a, [])
+        # product and quotient with exactly one part of one operand absent (a fast path keyed on a single part)
+        for ty in tys:
+            nopt = sum(1 for f in ty.fields() if f['kind'] != 'T')
+            if nopt < 2:
+                continue
+            for op in ('mul', 'div'):
+                for side in (0, 1):
+                    for miss in range(nopt):
+                        a = [genvals.gen_value(rng, ty, genvals.leaf_rand, re_leaf=lambda r: r.uniform(0.3, 3), presence=True) for _ in range(2)]
+                        w = list(a[side])
+                        idx = [i for i, f in enumerate(ty.fields()) if f['kind'] != 'T'][miss]
+                        w[idx] = None
+                        a[side] = w
+                        twins(ty, op, a, [])
         k = 0
         while len(out) < n:
-            ty = tys[k % len(tys)]
-            op = ops[(k // len(tys)) % len(ops)] if k < len(tys) * len(ops) else rng.choice(ops)
+            # every operation early: the operation index runs fastest, the type advances with a stride
+            op = ops[k % len(ops)] if k < len(tys) * len(ops) else rng.choice(ops)
+            ty = tys[(3 * k + k // len(ops)) % len(tys)]
             k += 1
             dom = c01.DOM.get(op) or (lambda r: r.uniform(0.3, 3))
             if op in ('div', 'div_assign', 'powd', 'powf', 'log', 'atan2', 'powi'):
